@@ -42,6 +42,7 @@ def replay_history(beh, headers):
     settings = Settings(rst=RSTSettings(headers=headers)) if headers else Settings()
     hchar = (headers or RSTWriter.heading_level_chars)[0]
     handles = {}
+    drift = []
     root = None
     nnodes = 0
     k = 0
@@ -83,13 +84,25 @@ def replay_history(beh, headers):
             got2 = str(w)
             after = (len(w.document), len(getattr(w, "options", [])), [id(x) for x in w.document])
             exp = "\n".join(render_line(l, hchar) for l in outs[k]) + "\n"
+            kinds = [l["t"][0] for l in outs[k]]
             k += 1
             if got != exp:
-                return {"step": step, "why": "serialisation differs from the specification's Lines()", "expected": exp, "observed": got}
+                # the verdict is about what C20 states (framing, indentation of every element line, options directly
+                # after the heading, order): the non-blank lines. A difference in blank lines only is model drift.
+                nb = lambda t: [l for l in t.split("\n") if l.strip()]
+                if nb(got) != nb(exp):
+                    return {"step": step, "why": "non-blank lines of the serialisation (framing, indentation, order, options) differ from the specification", "expected": exp, "observed": got}
+                gl = got.split("\n")
+                for j, l in enumerate(gl):
+                    if l.strip().startswith(":opt") and j > 0 and not (gl[j - 1].strip().startswith(".. dir") or gl[j - 1].strip().startswith(":opt")):
+                        return {"step": step, "why": "a directive option is not directly after the directive heading", "expected": exp, "observed": got}
+                drift.append({"step": step, "expected": exp, "observed": got})
             if got2 != got:
                 return {"step": step, "why": "serialising twice gives different text", "expected": got, "observed": got2}
             if before != after:
                 return {"step": step, "why": "to_text changed the document", "expected": str(before), "observed": str(after)}
+    if drift:
+        return {"drift": drift[0]}
     return None
 
 
@@ -125,7 +138,9 @@ def replay(run, behs, seed, limit=None):
                 run.behaviours += 1
                 ops = [o["op"] + (str(o.get("h", "")) if "h" in o else "") for o in behs[n]["hist"]]
                 run.count(json.dumps(behs[n]["hist"], sort_keys=True))
-                if r:
+                if r and "drift" in r:
+                    run.drifted({"history": ops, "blank_line_difference": r["drift"]})
+                elif r:
                     run.violation({"history": behs[n]["hist"], "headers": headers, "ops": ops}, r["expected"], r["observed"], r["why"])
     if behs:
         run.sample({"api_history": behs[len(behs) // 2]["hist"]})
